@@ -108,6 +108,7 @@ def run_hist(ro_text, msg_texts):
     """fold of ro += msg, stopping at the first exception; every intermediate outcome"""
     ro = RunningOrder.from_string(ro_text)
     steps = []
+    _ = (ro.completed, repr(ro))
     for mt in msg_texts:
         try:
             m = MosFile.from_string(mt)
@@ -121,8 +122,13 @@ def run_hist(ro_text, msg_texts):
                 ro += m
             except Exception as e:
                 err = ename(e)
+        try:
+            comp = bool(ro.completed)
+        except Exception as e:
+            comp = ename(e)
         steps.append({'cls': type(m).__name__, 'err': err, 'warns': wnames(ws),
-                      'tree': elem_to_tree(ro.xml)})
+                      'tree': elem_to_tree(ro.xml), 'completed': comp,
+                      'repr_completed': 'completed' in repr(ro)})
     return steps
 
 
